@@ -291,6 +291,7 @@ func childPasteRes(vt *term.Model, which string) string {
 var childKeys = []vaxis.Key{
 	{Keycode: vaxis.KeyUp}, {Keycode: vaxis.KeyDown}, {Keycode: vaxis.KeyHome}, {Keycode: vaxis.KeyUp, Modifiers: vaxis.ModShift},
 	{Keycode: vaxis.KeyF01}, {Keycode: vaxis.KeyInsert}, {Keycode: 'a', Text: "a"}, {Keycode: vaxis.KeyUp, EventType: vaxis.EventRelease},
+	{Keycode: vaxis.KeyKeyPadEnter}, {Keycode: vaxis.KeyKeyPad5, Modifiers: vaxis.ModNumLock, Text: "5"},
 }
 
 var childMice = []vaxis.Mouse{
